@@ -445,6 +445,71 @@ fn two_own_case(b: &str, s12: &str, s1: &str, s2: &str, st: &mut Stats) -> Resul
     Ok(())
 }
 
+fn suffix_keys_of_base(base: &str, chunk: usize, st: &mut Stats) -> Result<(), Failure> {
+    let case0 = || json!({"all_suffix_keys": {"base": base}});
+    let pf = |p: crate::driver::PanicInfo| Failure::new(&panic_kind(&p), p.to_string(), case0());
+    let sb = Sandbox::new();
+    let opts = Opts::parse("s");
+    let ctx = Ctx::new(opts, &sb).map_err(pf)?;
+    let l = ctx.type_frontend(base).map_err(pf)?.unwrap();
+    // learn the last dictionary-looking candidate that is not preselected
+    let Some(idx) = (0..l.cands.len()).rev().find(|i| *i != l.sel && l.cands[*i].chars().all(crate::model::is_bengali_block)) else {
+        ctx.finish().map_err(pf)?;
+        return Ok(());
+    };
+    let c = l.cands[idx].clone();
+    ctx.commit(idx).map_err(pf)?;
+    let ctx2 = Ctx::new(opts, &sb).map_err(pf)?;
+    let mut sk: Vec<&String> = data().suffix.keys().collect();
+    sk.sort();
+    for (n, s) in sk.iter().enumerate() {
+        if n % 8 != chunk || !s.chars().all(|ch| crate::driver::keys().has_char(ch)) {
+            continue;
+        }
+        let w = format!("{base}{s}");
+        let mut own = HashMap::new();
+        own.insert(base.to_string(), c.clone());
+        let Some(Some(v)) = ideal(&w, &own) else { continue };
+        for (which, cx) in [("the context that learned the base", &ctx), ("a restarted context", &ctx2)] {
+            let r = cx.type_frontend(&w).map_err(pf)?.unwrap();
+            cx.finish().map_err(pf)?;
+            st.evals(1);
+            if let Some(iv) = r.cands.iter().position(|x| *x == v) {
+                st.count("suffix-checks", 1);
+                st.label("suffix-key-checked-with-a-learned-base");
+                if r.sel != iv {
+                    return Err(Failure::new(
+                        "suffixed-form-not-preselected",
+                        format!("{base:?} learned as {c:?}; {w:?} (suffix key {s:?}) typed in {which}: the joined form {v:?} is offered at index {iv} but index {} is preselected in {:?}", r.sel, r.cands),
+                        json!({"all_suffix_keys": {"base": base, "suffix": s}}),
+                    ));
+                }
+                if iv != 0 {
+                    st.nontrivial(hash_of(&(base, s, which)), || json!({"base": base, "learned": c, "suffix_key": s, "expected": v, "index": iv}));
+                }
+            } else {
+                st.count("suffix-form-not-offered", 1);
+            }
+        }
+    }
+    Ok(())
+}
+
+/// One learned base x EVERY suffix key of the data (737): the joined form, when offered, must be preselected - in the
+/// context that learned the base and in a restarted one.  (Generated probes meet a particular key - the longest, the
+/// shortest, one that is a prefix of another - only by chance.)
+fn all_suffix_keys(run: &Run) {
+    let bases = ["sesh", "kolkol", "onno", "amar", "hothat", "rong"];
+    let items: Vec<(usize, usize)> = (0..bases.len()).flat_map(|b| (0..8usize).map(move |chunk| (b, chunk))).collect();
+    run.exhaustive(
+        "learned-base-x-every-suffix-key",
+        &items,
+        |_| (),
+        |&(bi, chunk), st, _| suffix_keys_of_base(bases[bi], chunk, st),
+    );
+    run.require_label("suffix-key-checked-with-a-learned-base", 1500);
+}
+
 pub fn strategy() -> impl Strategy<Value = Case> {
     let kind = prop_oneof![
         3 => (any::<u16>(), any::<u8>()).prop_map(|(word, wrap)| StepKind::Type { word, wrap }),
@@ -459,6 +524,7 @@ pub fn strategy() -> impl Strategy<Value = Case> {
 
 pub fn run(run: &Run) {
     two_own_decompositions(run);
+    all_suffix_keys(run);
     run.sharded("learn-retype-restart", 16, run.tier.pick(250, 6000), 400, strategy, |_| (), |c: &Case, st, _| run_case(run, c, st));
     run.require_label("retyped-after-restart", 30);
     run.require_label("restart-with-the-list-off-then-update-engine", 30);
@@ -469,6 +535,14 @@ pub fn run(run: &Run) {
 }
 
 pub fn replay(run: &Run, case: &Value) -> Result<(), Failure> {
+    if let Some(a) = case.get("all_suffix_keys") {
+        // the part is cheap: the replay runs the whole base again
+        let base = a["base"].as_str().unwrap_or_default().to_string();
+        for chunk in 0..8 {
+            suffix_keys_of_base(&base, chunk, &mut Stats::new())?;
+        }
+        return Ok(());
+    }
     if let Some(t) = case.get("two_own") {
         let g = |k: &str| t[k].as_str().unwrap_or_default().to_string();
         let (b, s1, s2) = (g("base"), g("s1"), g("s2"));
